@@ -31,6 +31,7 @@ Definition handler (w : world) (n : nat) (now : Z) (o : op) : prog obs :=
   | OpToken GRefreshToken r => lift (refresh_grant w n now r)
   | OpToken GClientCredentials r => lift (cc_grant w n now r)
   | OpToken GCiba r => lift (ciba_grant w n now r)
+  | OpToken GJwtBearer r => lift (jwt_bearer_grant w n now r)
   | OpToken _ r => Ret (Out (OErr EUnsupportedGrantType))
   | OpIntrospect r => lift (introspect w now r)
   | OpRevoke r => lift (revoke w now r)
